@@ -3632,6 +3632,7 @@ type JournalReader struct {
 	frame  []byte      // frame buffer
 
 	isValid    bool   // true, if at least one valid header exists
+	unsynced   bool   // true, if the first header has not been sync'd (no magic)
 	frameN     int32  // Number of pages in the segment
 	nonce      uint32 // A random nonce for the checksum
 	commit     uint32 // Initial size of the database in pages
@@ -3681,7 +3682,18 @@ func (r *JournalReader) Next() (err error) {
 	}
 
 	// After the first segment, we require the magic bytes.
-	if r.offset > 0 && !bytes.Equal(hdr[:8], []byte(SQLITE_JOURNAL_HEADER_STRING)) {
+	hasMagic := bytes.Equal(hdr[:8], []byte(SQLITE_JOURNAL_HEADER_STRING))
+	if r.offset > 0 && !hasMagic {
+		return io.EOF
+	}
+
+	// SQLite only starts another segment after it has synced the previous
+	// header. If the first header was never synced (no magic) then anything
+	// that looks like a header further on was left behind by an earlier
+	// transaction in a persistent journal and must not be played back.
+	if r.offset == 0 {
+		r.unsynced = !hasMagic
+	} else if r.unsynced {
 		return io.EOF
 	}
 
